@@ -257,6 +257,32 @@ def hier_global_long(S, family, p, out_len):
         S.prove(ok, 'global-long:interpolate-returns-nodal-values-at-grid-points-(grid %d on the same object)' % (rnd + 1))
 
 
+def hier_global_relabel(S, family, p, n, out_len):
+    """ONE grid object is given two grids one after the other with the SAME coordinates but a different refinement tree (level labelling) -
+    what rebalancing does in the dimension-wise scheme (the points stay, the levels are re-labelled).  Hierarchisation followed by
+    interpolation reproduces the nodal values both times.  Both trees are solver choices (all pairs of trees with n points)."""
+    G = _G()
+    from sparseSpACE.ComponentGridInfo import ComponentGridInfo
+    a, b = np.zeros(1), np.ones(1)
+    grid = (G.GlobalLagrangeGrid if family == 'lagrange' else G.GlobalBSplineGrid)(a, b, boundary=True, p=p)
+    tA = lib.tree_levels(S, 'treeA', n)
+    tB = lib.tree_levels(S, 'treeB', n)
+    xs = [float(x) for x in lib.dyadic_coords(tA, 0.0, 1.0)]
+    for rnd, lv in enumerate((list(tA), list(tB))):
+        grid.set_grid([xs], [lv])
+        f = lib.make_function(S, 'F%d' % rnd, 1, out_len)
+        levelvec = [max(lv)]
+        grid.integrate(f, levelvec, a, b)
+        cg = ComponentGridInfo(levelvector=levelvec, coefficient=1)
+        pts = [tuple(float(x) for x in q) for q in grid.getPoints()]
+        vals = grid.interpolate(pts, cg)
+        ok = True
+        for q, v in zip(pts, vals):
+            want = f.F(list(q))
+            ok = sym_and(ok, *[S.eq(v[j], want[j]) for j in range(out_len)])
+        S.prove(ok, 'global-relabel:interpolate-returns-nodal-values-at-grid-points-(labelling %d on the same object and coordinates)' % (rnd + 1))
+
+
 BOUNDS = {
     'quick': {'symbolic knots': 'p <= 2 all knots symbolic; p = 3 one symbolic knot', 'calculus': 'p <= 3 Lagrange, p in {1,3} B-spline on 8..10 uniform knots', 'local grids': 'd=1 levels <= 3, d=2 levels <= (2,2), p in {1,2,3} (B-spline 1,3), output length 1/2',
               'global grids': 'trees with <= 6 points (d=1), (4,3) points (d=2), p in {1,2,3}'},
@@ -316,4 +342,9 @@ def jobs(tier):
         for p in ps:
             js.append(Job('hier-global-long[%s,p=%d,pts=17,b]' % (family, p), hier_global_long, {'family': family, 'p': p, 'out_len': 1},
                           validate=(3 if q else 1), budget_s=(600 if q else 3000)))
+    for family, ps in (('lagrange', (1, 2, 3)), ('bspline', (1, 3))):
+        for p in ps:
+            for n in ((4, 5) if q else (4, 5, 6)):
+                js.append(Job('hier-global-relabel[%s,p=%d,pts=%d]' % (family, p, n), hier_global_relabel, {'family': family, 'p': p, 'n': n, 'out_len': 2 if p == 2 else 1},
+                              validate=(3 if q else 1), budget_s=(600 if q else 3000)))
     return js
